@@ -153,6 +153,31 @@ def run_closed(spec, rec, dadi):
             rec.close("godambe-matrices-closed-form", float(np.max(np.abs(Jc - J)) / gscale ** 2), 4 * tol, site="Godambe.get_godambe", tags=dict(tags, what="J"))
             rec.close("godambe-matrices-closed-form", float(np.max(np.abs(cUc.ravel() - cU)) / gscale), 2 * tol, site="Godambe.get_godambe", tags=dict(tags, what="cU"))
             rec.close("godambe-matrices-closed-form", float(np.max(np.abs(Gc - Hc @ np.linalg.inv(Jc) @ Hc)) / np.max(np.abs(Gc))), 1e-9, site="Godambe.get_godambe", tags=dict(tags, what="G=HJ^-1H"))
+        # (1b) bootstraps with their own relative theta (boot_theta_adjusts): score of bootstrap b is B^T(-a_b + boot_b/m); H is untouched;
+        #      jointly permuting bootstraps and adjustments changes nothing; a plain call afterwards is what it was before
+        adj = [float(v) for v in np.exp(rng.uniform(-0.25, 0.25, len(boots)))]
+        grads_a = [Bm.T @ (-a_ + np.asarray(b.data)[mid] / m[mid]) for a_, b in zip(adj, boots)]
+        Ja = sum(np.outer(g, g) for g in grads_a) / len(boots)
+        cUa = sum(grads_a) / len(boots)
+        gsa = float(np.mean([np.max(np.abs(g)) for g in grads_a]))
+        oka, gga = rec.noraise("returns", lambda: Godambe.get_godambe(model, [10], boots, list(p0), data, eps, boot_theta_adjusts=list(adj)), site="Godambe.get_godambe",
+                               tags=dict(tags, theta_adjusts=True))
+        if oka:
+            Ga, Ha, Jac, cUac = [np.asarray(a, float) for a in gga]
+            ta = dict(tags, theta_adjusts=True)
+            rec.close("godambe-matrices-closed-form", float(np.max(np.abs(Ha - H)) / np.max(np.abs(H))), tol, site="Godambe.get_godambe", tags=dict(ta, what="H"))
+            rec.close("godambe-matrices-closed-form", float(np.max(np.abs(Jac - Ja)) / gsa ** 2), 4 * tol, site="Godambe.get_godambe", tags=dict(ta, what="J"))
+            rec.close("godambe-matrices-closed-form", float(np.max(np.abs(cUac.ravel() - cUa)) / gsa), 2 * tol, site="Godambe.get_godambe", tags=dict(ta, what="cU"))
+            pi = [int(j) for j in rng.permutation(len(boots))]
+            okb, ggb = rec.noraise("returns", lambda: Godambe.get_godambe(model, [10], [boots[j] for j in pi], list(p0), data, eps, boot_theta_adjusts=[adj[j] for j in pi]),
+                                   site="Godambe.get_godambe", tags=ta)
+            if okb:
+                rec.close("bootstrap-order-independent", float(np.max(np.abs(np.asarray(ggb[2], float) - Jac)) / gsa ** 2), 1e-10, site="Godambe.get_godambe", tags=dict(ta, what="J"))
+            if ok:
+                okc, ggc = rec.noraise("returns", lambda: Godambe.get_godambe(model, [10], boots, list(p0), data, eps), site="Godambe.get_godambe", tags=ta)
+                if okc:
+                    rec.close("plain-call-unchanged-after-theta-adjusts", float(np.max(np.abs(np.asarray(ggc[2], float) - Jc)) / gscale ** 2), 1e-12, site="Godambe.get_godambe", tags=ta)
+                    rec.close("plain-call-unchanged-after-theta-adjusts", float(np.max(np.abs(np.asarray(ggc[1], float) - Hc)) / np.max(np.abs(H))), 1e-12, site="Godambe.get_godambe", tags=dict(ta, what="H"))
         # (2) every statistic equals its defining algebra on the matrices of the nested sub-problem, and (3) converges to the
         #     closed form at second order in eps (error falls >= 2.5x when eps is halved)
         ix = np.ix_(nested, nested)
